@@ -156,13 +156,13 @@ def t_post(host, kind, tags):
         Q1, D1 = view(it, d), view(it, c.read(self, 'defer_queue'))
         pos = Q1.at(Q1.len - 1) if kind == 'fifo' else Q1.at(0)
         c.prove('%s:post/new-event-at-%s' % (mname, 'back' if kind == 'fifo' else 'front'),
-                z3.And(Q1.len >= 1, pos == e.e), tags=('C14', 'C16', 'C04'))
+                z3.And(Q1.len >= 1, pos == e.e), tags=('C14', 'C16', 'C04', 'C09'))
         c.prove('%s:post/within-capacity' % mname, z3.And(Q1.len <= Q1.maxlen, Q1.maxlen == Q0.maxlen),
                 tags=('C16',))
         if host in ACTIVE_HOSTS:
             # overflow: which pending event is displaced is not specified by the property
             c.prove('%s:post/exact-when-room' % mname, z3.Implies(Q0.len < Q0.maxlen, pred(Q0, Q1, e.e)),
-                    tags=('C14', 'C16', 'C04'))
+                    tags=('C14', 'C16', 'C04', 'C09'))
             c.prove('%s:post/token-per-event' % mname, tokens(it, self) == Q1.len, tags=('C16', 'C04'))
         else:
             c.prove('%s:post/deque-%s-put' % (mname, kind), pred(Q0, Q1, e.e), tags=('C14', 'C16'))
